@@ -477,7 +477,7 @@ def run_pipeline(
                 num_bytes = buckets_data_tree.nbytes
                 num_bytes += detector.scene.data.nbytes
 
-                if debug:
+                if debug and detector._intermediate is not None:
                     num_bytes += detector.intermediate.nbytes
 
                 if detector._data is not None:
@@ -510,6 +510,10 @@ def run_pipeline(
 
         # If debug is enabled, add intermediate data to the `DataTree`.
         if debug:
+            if detector._intermediate is None:
+                # No model was executed (e.g. all models are disabled)
+                detector._intermediate = xr.DataTree(name="intermediate")
+
             datatree_intermediate: xr.DataTree = detector.intermediate
 
             # Remove temporary data_tree '/last' from 'datatree_intermediate'
